@@ -404,10 +404,11 @@ func MergeConfig(a, b *Config) *Config {
 		result.DisableCoordinates = true
 	}
 	if b.Tags != nil {
-		if result.Tags == nil {
-			result.Tags = make(map[string]string)
-		}
-		maps.Copy(result.Tags, b.Tags)
+		// Never write into a.Tags: result starts as a shallow copy of a
+		merged := make(map[string]string, len(a.Tags)+len(b.Tags))
+		maps.Copy(merged, a.Tags)
+		maps.Copy(merged, b.Tags)
+		result.Tags = merged
 	}
 	if b.BindAddr != "" {
 		result.BindAddr = b.BindAddr
@@ -514,6 +515,12 @@ func MergeConfig(a, b *Config) *Config {
 	}
 	if b.BroadcastTimeout != 0 {
 		result.BroadcastTimeout = b.BroadcastTimeout
+	}
+	if b.ValidateNodeNames {
+		result.ValidateNodeNames = true
+	}
+	if b.MsgpackUseNewTimeFormat {
+		result.MsgpackUseNewTimeFormat = true
 	}
 	result.EnableCompression = b.EnableCompression
 
